@@ -242,8 +242,24 @@ def _tiny_y_points(count):
     return out
 
 
-_X_BOUND = [0, 1, 2, 3, 5, 7, P - 2, P - 1, P, P + 1, P + 2, N - 1, N, N + 1, M256, M256 - 1, 1 << 255, (1 << 255) - 1, P - N, (1 << 32), (1 << 32) + 976, (1 << 32) + 977]
+_X_BOUND = [0, 1, 2, 3, 5, 7, P - 2, P - 1, P, P + 1, P + 2, N - 1, N, N + 1, M256, M256 - 1, 1 << 255, (1 << 255) - 1, P - N, (1 << 32), (1 << 32) + 976, (1 << 32) + 977,
+            P + (1 << 26) - 1, P + (1 << 26), P + (1 << 26) + 1]
 _TINY_Y = _tiny_y_points(3)
+
+
+def _limb_patterns_p():
+    """field elements just BELOW p that agree with p on all limbs of a 10x26 / 5x52 representation except one upper limb (that limb minus 1),
+    with all lower bits set: a range check that drops or mis-compares one limb of its chain wrongly refuses them.  -> {value: label}"""
+    out = {}
+    for w, name in ((26, "limb26"), (52, "limb52")):
+        i = 2 if w == 26 else 1
+        while w * i < 256:
+            out[M256 - (1 << (w * i))] = name
+            i += 1
+    return out
+
+
+_LIMB_X = _limb_patterns_p()
 
 
 def _build_xset():
@@ -253,6 +269,13 @@ def _build_xset():
         xs += _neighbours(v if v < P else P - 1)
     tiny = [x for x in range(1, 40) if ec.lift_x(x) is not None][:5]
     xs += tiny + [x + P for x in tiny] + [5 + P, 0 + P]
+    # on-curve x right below / at 2^26 (the width of the lowest limb of the 10x26 field): their x+p re-encodings
+    xs += [x + P for x in _neighbours((1 << 26) - 1)[1:] + _neighbours(1 << 26)[:1]]
+    for v, name in list(_LIMB_X.items()):
+        xs.append(v)
+        for nb in _neighbours(v)[1:]:            # nearest on-curve x below (keeps the low bits all-ones-ish)
+            xs.append(nb)
+            _LIMB_X[nb] = name
     xs += [ec.GX, ec.mulg(2)[0], ec.mulg(N - 3)[0]]
     xs += [x for x, _ in _TINY_Y]
     seen, out = set(), []
@@ -278,7 +301,7 @@ def _yvariants(x):
         for y in (y0, y1):
             if y + P <= M256:
                 ys.append(y + P)
-    ys += [0, 1, P - 1, P, P + 1, M256]
+    ys += [0, 1, P - 1, P, P + 1, M256, P + (1 << 26) - 1, P + (1 << 26)]
     seen, out = set(), []
     for y in ys:
         if y not in seen:
@@ -324,9 +347,11 @@ def pub_string(prefix, length, x, y):
     return bytes([prefix]) + body + _filler(length - 65)
 
 
-def pub_enum(tier, shard, nshards, stride=1):
-    """stride > 1: a deterministic 1/stride subsample (used for the sanitizer build)"""
+def pub_enum(tier, shard, nshards, stride=1, stride_a=None):
+    """stride > 1: a deterministic 1/stride subsample (used for the sanitizer build);
+    stride_a: subsample rate of grid A only (every prefix x every length), the boundary grids stay complete (used for the other limb configurations)"""
     sel = Selector(shard, nshards, stride)
+    sel_a = Selector(shard, nshards, stride_a) if stride_a else sel
     gy = ec.GY
     t1 = ec.lift_x(1)
     bodies = [(ec.GX, gy), (ec.GX, P - gy), t1, (t1[0] + P, t1[1]), (0, 0), (M256, M256)]
@@ -336,7 +361,7 @@ def pub_enum(tier, shard, nshards, stride=1):
     for prefix in range(256):
         for length in range(81):
             for bi, (x, y) in enumerate(bodies):
-                if sel.take():
+                if sel_a.take():
                     yield {"k": "pub", "p": prefix, "l": length, "x": x, "y": y}
     # grid B: interesting prefixes x the key lengths x all boundary coordinates
     for prefix in _PREFIX_B:
@@ -361,14 +386,40 @@ def pub_enum(tier, shard, nshards, stride=1):
             yield {"k": "xonly", "x": x}
 
 
+_SPECIAL = {P - 1: "p-1", P: "p", P + 1: "p+1", P + (1 << 26) - 1: "p+2^26-1", P + (1 << 26): "p+2^26", M256: "2^256-1"}
+_TINY_XP = {x + P for x in range(1, 40) if ec.lift_x(x) is not None}
+_TINY_YP = {y + P for _, y in _TINY_Y}
+_FMT = {2: "comp", 3: "comp", 4: "uncomp", 6: "hybrid", 7: "hybrid"}
+
+
+def _xname(x):
+    return _SPECIAL.get(x) or ("tinyx+p" if x in _TINY_XP else _LIMB_X.get(x))
+
+
+def _yname(y):
+    return _SPECIAL.get(y) or ("tinyy+p" if y in _TINY_YP else None)
+
+
 def run_pub_enum(env, case):
     classes = []
     if case["k"] == "xonly":
         nt = run_xonly_bytes(env, b32(case["x"]), classes)
+        if _xname(case["x"]):
+            classes.append("bx:%s:xonly" % _xname(case["x"]))
         return nt, classes
     b = pub_string(case["p"], case["l"], case["x"], case["y"])
     nt = run_pub_bytes(env, b, classes)
+    fmt = _FMT.get(case["p"])
+    if fmt and case["l"] == (33 if fmt == "comp" else 65):
+        if _xname(case["x"]):
+            classes.append("bx:%s:%s" % (_xname(case["x"]), fmt))
+        if fmt != "comp" and _yname(case["y"]):
+            classes.append("by:%s:%s" % (_yname(case["y"]), fmt))
     return nt, classes
+
+
+_BOUND_COVER = (["bx:%s:%s" % (n, f) for n in ("p-1", "p", "p+1", "p+2^26-1", "p+2^26", "2^256-1", "tinyx+p", "limb26", "limb52") for f in ("comp", "uncomp", "hybrid", "xonly")]
+                + ["by:%s:%s" % (n, f) for n in ("p-1", "p", "p+1", "p+2^26-1", "p+2^26", "2^256-1", "tinyy+p") for f in ("uncomp", "hybrid")])
 
 
 # ================================================================== (b) DER grid
@@ -606,14 +657,38 @@ _CB = [0, 1, 2, 0x80, HALF - 1, HALF, HALF + 1, N - 2, N - 1, N, N + 1, N + 2, P
        0xFFFFFFFFFFFFFFFFFFFFFFFFFFFFFFFEBAAEDCE6AF48A03BBFD25E8C00000000]
 
 
+def _limb_prefix_n():
+    """scalars equal to n on the top 32k bits with, in the limb right below, n's limb +-1 / 0 / 0xFFFFFFFF and the rest n's own, zero or ones
+    (the overflow check compares limb by limb; 64-bit limbs are the even k)"""
+    out = []
+    for k in range(1, 8):
+        L = 256 - 32 * k
+        top = N >> L << L
+        j = L - 32
+        own = N & ((1 << j) - 1)
+        limb = (N >> j) & 0xFFFFFFFF
+        for lv in ((limb + 1) & 0xFFFFFFFF, (limb - 1) & 0xFFFFFFFF, 0, 0xFFFFFFFF):
+            for rest in (own, 0, (1 << j) - 1):
+                out.append(top | (lv << j) | rest)
+    seen, res = set(), []
+    for v in out:
+        if v not in seen:
+            seen.add(v)
+            res.append(v)
+    return res
+
+
+_CB_LIMB = _limb_prefix_n()
+
+
 def compact_enum(tier, shard, nshards):
     i = 0
-    for r in _CB:
-        for s in _CB:
-            for recid in (-1, 0, 1, 2, 3):
-                if i % nshards == shard:
-                    yield {"r": r, "s": s, "recid": recid}
-                i += 1
+    pairs = [(r, s) for r in _CB for s in _CB] + [(v, 1) for v in _CB_LIMB] + [(N - 1, v) for v in _CB_LIMB]
+    for r, s in pairs:
+        for recid in (-1, 0, 1, 2, 3):
+            if i % nshards == shard:
+                yield {"r": r, "s": s, "recid": recid}
+            i += 1
 
 
 def run_compact_bytes(env, b, recid, classes, prefill=None):
@@ -670,7 +745,13 @@ def run_compact_bytes(env, b, recid, classes, prefill=None):
 def run_compact_enum(env, case):
     classes = []
     nt = run_compact_bytes(env, b32(case["r"]) + b32(case["s"]), case["recid"], classes)
+    for v in (case["r"], case["s"]):
+        if v in _CB_LIMB_SET:
+            classes.append("limb~n:" + ("below" if v < N else "above"))
     return nt, classes
+
+
+_CB_LIMB_SET = set(_CB_LIMB)
 
 
 # ================================================================== (d) Hypothesis mutations of valid encodings
@@ -906,29 +987,47 @@ _DER_COVER = ["der_accept:in_range", "der_accept:out_of_range", "der_accept:nega
 
 
 def _san_pub_enum(tier, shard, nshards):
-    return pub_enum(tier, shard, nshards, stride=3)
+    return pub_enum(tier, shard, nshards, stride=6)
+
+
+def _cfg_pub_enum(tier, shard, nshards):
+    return pub_enum(tier, shard, nshards, stride_a=8)
 
 
 def _san_der_enum(tier, shard, nshards):
-    return der_enum(tier, shard, nshards, stride=3)
+    return der_enum(tier, shard, nshards, stride=6)
 
 
+def _cfg_der_enum(tier, shard, nshards):
+    return der_enum(tier, shard, nshards, stride=8)
+
+
+OTHER = {"quick": ["int64", "struct"], "thorough": ["int64", "struct"]}
+ALL4 = {"quick": ["prod", "vsan", "int64", "struct"], "thorough": ["prod", "vsan", "int64", "struct"]}
 # The grids are exhaustive on the production build; the sanitizer build (about 8x slower per case under the ASan-preloaded interpreter) takes every third case of the
-# same enumeration, which still contains every structural form with several values.
+# same enumeration, which still contains every structural form with several values.  The other limb representations (int64: 10x26 field / 8x32 scalar; struct: 5x52 / 4x64 through
+# the int128 emulation) run the COMPLETE boundary-coordinate grids (every boundary x / y under every key format: must_cover) and an eighth of the prefix x length grid and of the DER grid.
 TESTS = [
-    Test("pub_grid", pub_enum, run_pub_enum, kind="enum", cfgs=PROD, max_workers=4, must_cover=_PUB_COVER),
+    Test("pub_grid", pub_enum, run_pub_enum, kind="enum", cfgs=PROD, max_workers=4, must_cover=_PUB_COVER + _BOUND_COVER),
     Test("pub_grid_san", _san_pub_enum, run_pub_enum, kind="enum", cfgs=SAN, max_workers=4, must_cover=_PUB_COVER),
+    Test("pub_grid_cfg", _cfg_pub_enum, run_pub_enum, kind="enum", cfgs=OTHER, max_workers=2, must_cover=_PUB_COVER + _BOUND_COVER),
     Test("der_grid", der_enum, run_der_enum, kind="enum", cfgs=PROD, max_workers=8, must_cover=_DER_COVER),
     Test("der_grid_san", _san_der_enum, run_der_enum, kind="enum", cfgs=SAN, max_workers=8, must_cover=_DER_COVER),
-    Test("compact_grid", compact_enum, run_compact_enum, kind="enum", cfgs=CF, max_workers=2,
-         must_cover=["compact_accept", "compact_reject", "rec_accept", "rec_reject"]),
+    Test("der_grid_cfg", _cfg_der_enum, run_der_enum, kind="enum", cfgs=OTHER, max_workers=2, must_cover=_DER_COVER),
+    Test("compact_grid", compact_enum, run_compact_enum, kind="enum", cfgs=ALL4, max_workers=2,
+         must_cover=["compact_accept", "compact_reject", "rec_accept", "rec_reject", "limb~n:below", "limb~n:above"]),
     Test("mutate", mutate_case, run_mutate, quick=6000, thorough=120000, cfgs=CF,
          must_cover=["fmt:comp", "fmt:uncomp", "fmt:hybrid", "fmt:xonly", "fmt:der", "fmt:compact", "fmt:rec", "accept:hybrid", "der_accept:in_range", "der_reject", "compact_reject"]),
+    Test("mutate_cfg", mutate_case, run_mutate, quick=800, thorough=40000, cfgs=OTHER, must_cover=["fmt:comp", "fmt:uncomp", "fmt:hybrid", "fmt:xonly", "fmt:der", "fmt:compact"]),
     Test("never_verifies", never_case, run_never, quick=500, thorough=10000, cfgs=CF,
          must_cover=["twin:s+n", "twin:r+n", "twin:negative", "twin:oversize", "failed:trailing", "Rx>=n"]),
+    Test("never_verifies_cfg", never_case, run_never, quick=150, thorough=4000, cfgs=OTHER, must_cover=["twin:s+n", "twin:r+n", "twin:oversize", "failed:trailing"]),
 ]
 
 FUZZ_TARGETS = [
     FuzzTarget("fuzz_codec", "fuzz_codec.c", cfgs={"quick": ["vsan"], "thorough": ["vsan", "prod"]},
                runs={"quick": 160000, "thorough": 3000000}, workers={"quick": 8, "thorough": 16}, max_len=400, corpus="fuzz_codec", link=("-lgmp",)),
+    # the same target on the 10x26 / 8x32 (int64) and int128-struct representations: a smaller share of the runs
+    FuzzTarget("fuzz_codec_cfg", "fuzz_codec.c", cfgs={"quick": ["int64"], "thorough": ["int64", "struct"]},
+               runs={"quick": 120000, "thorough": 2000000}, workers={"quick": 3, "thorough": 6}, max_len=400, corpus="fuzz_codec", link=("-lgmp",)),
 ]
